@@ -45,6 +45,15 @@ def run(tier, seed):
                 f.write(json.loads(line) + "\n"); nb += 1
     if nb == 0:
         raise vp.ToolError("no behaviours generated:\n" + r["out"][-2000:])
+    # directed histories kept from earlier explorations (witness/c06_cases.ndjson): the history on which the
+    # thorough tier found FX_SCC_VALUE_RETAINED (a cut query kept its cycle default after the cycle was removed
+    # because its callee is still cyclic for another reason), and a non-simple program that must not be judged
+    nwit = 0
+    with open(cases, "a") as f:
+        for line in open(os.path.join(vp.ROOT, "witness", "c06_cases.ndjson")):
+            if line.strip():
+                f.write(line.strip() + "\n"); nwit += 1
+    nb += nwit
     import re
     m = re.search(r"The number of states generated: (\d+)", r["out"])
     gstates = int(m.group(1)) if m else 0
